@@ -13,6 +13,8 @@ import AiocoapModel.Codec.Message
 `<opt>` = `<num>:s:<utf8-hex>` | `<num>:o:<hex>` | `<num>:u:<hexnum>` | `<num>:c:<hexnum>` |
 `<num>:b:<block_number>/<0|1>/<szx>`; `<hexnum>` = hexadecimal digits of the integer.
 For `enc` the options are given in the order they were added to `Message.opt`.
+An option `<num>:x:<hex>` stands for an option of a format class the model has no counterpart for (the harness
+met a class name outside the five transcribed ones); such a message is answered `out-of-model`.
 -/
 namespace Aiocoap.Codec
 
@@ -74,6 +76,12 @@ def parseMsg (args : List String) : Option Msg :=
     pure { mtype, code, mid, token, opts, payload }
   | _ => none
 
+/-- an option of a value format the model does not have (`<num>:x:<hex>`) -/
+def isForeignOpt (s : String) : Bool :=
+  match s.splitOn ":" with
+  | [_, "x", _] => true
+  | _ => false
+
 def showFmt : Fmt → String
   | .string => "string" | .opaque => "opaque" | .uint => "uint" | .block => "block"
   | .contentFormat => "contentFormat"
@@ -113,6 +121,7 @@ def handleC01 (args : List String) : String :=
       | .error (.escaped .unicodeDecode) => "err:escaped:UnicodeDecodeError"
     | none => "bad-op"
   | "enc" :: rest =>
+    if (rest.drop 5).any isForeignOpt then "out-of-model" else
     match parseMsg rest with
     | some m =>
       -- `mtype` is a `Type` enum member in the code; other numbers cannot be set
